@@ -392,10 +392,12 @@ func (p *Proxy) shouldMITM(req *http.Request) bool {
 
 func (p *Proxy) fixRequestScheme(req *http.Request) {
 	if req.URL.Scheme == "" {
-		if proto := req.Header.Get("X-Forwarded-Proto"); proto != "" {
-			req.URL.Scheme = proto
-		} else if req.TLS != nil {
+		// Inside a secure session the scheme is https, a client supplied
+		// X-Forwarded-Proto header must not downgrade it to clear text.
+		if req.TLS != nil {
 			req.URL.Scheme = "https"
+		} else if proto := req.Header.Get("X-Forwarded-Proto"); proto != "" {
+			req.URL.Scheme = proto
 		} else {
 			req.URL.Scheme = "http"
 		}
